@@ -440,8 +440,8 @@ package raft
 //@ func Raft.sendRequestVote
 //@   requires votes != nil
 //@   requires [spawn-self-counted] *votes == 1
-//@   release s1 [truthful] request.CandidateID == r.id && request.LastLogIndex == Llast && request.LastLogTerm == Lterm[Llast] && request.Prevote == prevote && (prevote ==> request.Term == r.currentTerm + 1) && (!prevote ==> request.Term == r.currentTerm)
-//@   release s1 [voter] r.configuration.IsVoter[id] && r.configuration.IsVoter[r.id]
+//@   release before:r.transport.SendRequestVote [truthful] request.CandidateID == r.id && request.LastLogIndex == Llast && request.LastLogTerm == Lterm[Llast] && request.Prevote == prevote && (prevote ==> request.Term == r.currentTerm + 1) && (!prevote ==> request.Term == r.currentTerm)
+//@   release before:r.transport.SendRequestVote [voter] r.configuration.IsVoter[id] && r.configuration.IsVoter[r.id]
 //@   at before-assign *votes assert [count] response.VoteGranted && err == nil && r.currentTerm <= request.Term && request.Prevote == prevote
 //@   at call r.becomeCandidate assert [candidate-after-prevote] prevote && r.state == PreCandidate && request.Term == r.currentTerm + 1 && cnt(dom(r.configuration.IsVoter), vals(r.configuration.IsVoter)) < 2 * *votes
 //@   at call r.becomeLeader assert [becomeLeader.entry] !prevote && r.state == Candidate && request.Term == r.currentTerm && 2 * *votes > cntVoters(r.configuration)
@@ -541,10 +541,10 @@ package raft
 //@   assume [A-NOOVF] Llast < 17592186044416
 //@   requires [spawn-self-counted] numResponses != nil ==> *numResponses == selfVote(r)
 //@   requires [spawn-round] round == r.operationManager.rounds && round > 0
-//@   release s1 [leader-id] r.state == Leader && request.Term == r.currentTerm && request.LeaderID == r.id
-//@   release s1 [wf] WF(request) && request.LeaderCommit == r.commitIndex && r.lastIncludedIndex <= request.PrevLogIndex
-//@   release s1 [entries-verbatim] forall j int :: 0 <= j && j < len(request.Entries) ==> request.Entries[j].Term == Lterm[request.PrevLogIndex+1+j] && request.Entries[j].EntryType == Ltyp[request.PrevLogIndex+1+j] && request.Entries[j].Data == Ldata[request.PrevLogIndex+1+j]
-//@   release s1 [prev-term] request.PrevLogIndex <= Llast ==> (request.PrevLogIndex == r.lastIncludedIndex ==> request.PrevLogTerm == r.lastIncludedTerm) && (request.PrevLogIndex > r.lastIncludedIndex ==> request.PrevLogTerm == Lterm[request.PrevLogIndex])
+//@   release before:r.transport.SendAppendEntries [leader-id] r.state == Leader && request.Term == r.currentTerm && request.LeaderID == r.id
+//@   release before:r.transport.SendAppendEntries [wf] WF(request) && request.LeaderCommit == r.commitIndex && r.lastIncludedIndex <= request.PrevLogIndex
+//@   release before:r.transport.SendAppendEntries [entries-verbatim] forall j int :: 0 <= j && j < len(request.Entries) ==> request.Entries[j].Term == Lterm[request.PrevLogIndex+1+j] && request.Entries[j].EntryType == Ltyp[request.PrevLogIndex+1+j] && request.Entries[j].Data == Ldata[request.PrevLogIndex+1+j]
+//@   release before:r.transport.SendAppendEntries [prev-term] request.PrevLogIndex <= Llast ==> (request.PrevLogIndex == r.lastIncludedIndex ==> request.PrevLogTerm == r.lastIncludedTerm) && (request.PrevLogIndex > r.lastIncludedIndex ==> request.PrevLogTerm == Lterm[request.PrevLogIndex])
 //@   at before-assign follower.nextIndex assume [A-HINT] !response.Success ==> newval <= Llast + 1
 //@   at before-assign follower.matchIndex assert [match-sound] response.Success && err == nil && r.state == Leader && r.currentTerm == request.Term && newval == request.PrevLogIndex + len(request.Entries)
 //@   at before-assign *numResponses assert [verify-voters] err == nil && r.state == Leader && r.currentTerm == request.Term && r.configuration.IsVoter[id]
@@ -589,12 +589,12 @@ package raft
 
 //@ func Raft.readOnlyLoop
 //@   at call r.operationManager.appliableReadOnlyOperations assert [batch-guard] r.state == Leader && committedThisTermSpec(r)
-//@   release s2 [serve] r.state == Leader && operation != nil && operation.readIndex <= r.lastApplied && (operation.OperationType == LinearizableReadOnly ==> operation.quorumVerified) && (operation.OperationType == LeaseBasedReadOnly ==> now < r.operationManager.leaderLease.expiration)
+//@   release before:r.fsm.Apply [serve] r.state == Leader && operation != nil && operation.readIndex <= r.lastApplied && (operation.OperationType == LinearizableReadOnly ==> operation.quorumVerified) && (operation.OperationType == LeaseBasedReadOnly ==> now < r.operationManager.leaderLease.expiration)
 //@   loop range appliableOperations invariant [batch] forall o *Operation :: o in appliableOperations ==> o != nil && allocated(o) && o.readIndex <= r.lastApplied && (o.OperationType == LinearizableReadOnly ==> o.quorumVerified) && (o.OperationType == LinearizableReadOnly || o.OperationType == LeaseBasedReadOnly)
 //@   loop range appliableOperations invariant [leader] r.state == Leader
 
 //@ func Raft.applyLoop
-//@   release s3 [order] r.applying && !r.snapshotting && operation.LogIndex == r.lastApplied + 1 && operation.LogIndex <= r.commitIndex && operation.LogTerm == Lterm[operation.LogIndex] && operation.Bytes == Ldata[operation.LogIndex] && Ltyp[operation.LogIndex] == OperationEntry && operation.OperationType == Replicated
+//@   release before:r.fsm.Apply [order] r.applying && !r.snapshotting && operation.LogIndex == r.lastApplied + 1 && operation.LogIndex <= r.commitIndex && operation.LogTerm == Lterm[operation.LogIndex] && operation.Bytes == Ldata[operation.LogIndex] && Ltyp[operation.LogIndex] == OperationEntry && operation.OperationType == Replicated
 //@   at before-assign r.lastApplied assert [advance] newval == r.lastApplied + 1 && newval <= r.commitIndex
 //@   at call respond(r.configurationResponseCh, assert [config-answer] arg2 == nil && arg1 == *r.configuration
 //@   at call respond(responseCh, assert [answer] response.Operation.LogIndex == operation.LogIndex && response.Operation.LogTerm == operation.LogTerm && response.Operation.Bytes == operation.Bytes && err == nil
@@ -796,7 +796,7 @@ package raft
 // F10 repaired: the state machine is asked for a snapshot only while no operation is being applied
 // and with the pause flag set (the apply loop applies nothing while it is set), under the label of
 // the applied index; the flag is cleared only after Snapshot has returned.
-//@   release s2 [snapshot-quiet] !r.applying && r.snapshotting && sfIndex[snapshot] == r.lastApplied && lastAppliedEntry.Index == r.lastApplied
+//@   release before:r.fsm.Snapshot [snapshot-quiet] !r.applying && r.snapshotting && sfIndex[snapshot] == r.lastApplied && lastAppliedEntry.Index == r.lastApplied
 //@   at after-call r.fsm.Snapshot assert [still-paused] r.snapshotting
 //@   at call snapshot.Close assert [publish-locked] lockheld() && lastAppliedEntry.Index > r.lastIncludedIndex
 //@   at call snapshot.Close assume [A-OWN] sfWriter[snapshot] && !sfPublished[snapshot] && sfSeq[snapshot] > 0 && snapshot != r.snapshot
